@@ -5,7 +5,6 @@ package main
 import (
 	"fmt"
 	"go/types"
-	"os"
 	"sort"
 	"strings"
 
@@ -42,7 +41,7 @@ func (c *Ctx) reachable(entries []*ssa.Function, skip func(*ssa.Function) bool) 
 				continue
 			}
 			if _, isGo := e.Site.(*ssa.Go); isGo {
-				// still followed: a goroutine started from execution runs execution code
+				continue // goroutine bodies are inventoried separately (their start sites are tabled)
 			}
 			if _, seen := out[g]; seen || skip(g) {
 				continue
@@ -68,7 +67,182 @@ func chain(parents map[*ssa.Function]*ssa.Function, f *ssa.Function) string {
 	return strings.Join(s, " <- ")
 }
 
+// loopBlocks: the blocks of the loop whose header is hdr and whose body starts at body.
+func loopBlocks(hdr, body *ssa.BasicBlock) map[*ssa.BasicBlock]bool {
+	out := map[*ssa.BasicBlock]bool{}
+	stack := []*ssa.BasicBlock{body}
+	for len(stack) > 0 {
+		b := stack[len(stack)-1]
+		stack = stack[:len(stack)-1]
+		if out[b] || b == hdr {
+			continue
+		}
+		// stay inside the loop: only blocks from which the header is reachable
+		out[b] = true
+		stack = append(stack, b.Succs...)
+	}
+	// drop blocks that cannot come back to the header (loop exits reached via break/return)
+	back := map[*ssa.BasicBlock]bool{}
+	var canReach func(b *ssa.BasicBlock, seen map[*ssa.BasicBlock]bool) bool
+	canReach = func(b *ssa.BasicBlock, seen map[*ssa.BasicBlock]bool) bool {
+		if b == hdr {
+			return true
+		}
+		if v, ok := back[b]; ok {
+			return v
+		}
+		if seen[b] {
+			return false
+		}
+		seen[b] = true
+		for _, s := range b.Succs {
+			if canReach(s, seen) {
+				back[b] = true
+				return true
+			}
+		}
+		return false
+	}
+	for b := range out {
+		if !canReach(b, map[*ssa.BasicBlock]bool{}) {
+			delete(out, b)
+		}
+	}
+	return out
+}
+
+type mapLoop struct {
+	fn     *ssa.Function
+	rng    *ssa.Range
+	blocks map[*ssa.BasicBlock]bool
+}
+
+func mapLoops(f *ssa.Function) []mapLoop {
+	var out []mapLoop
+	allInstrs(f, false, func(_ *ssa.Function, in ssa.Instruction) {
+		r, ok := in.(*ssa.Range)
+		if !ok {
+			return
+		}
+		if _, isMap := r.X.Type().Underlying().(*types.Map); !isMap {
+			return
+		}
+		// the Next instruction and its header block
+		for _, ref := range *r.Referrers() {
+			nx, ok := ref.(*ssa.Next)
+			if !ok {
+				continue
+			}
+			hdr := nx.Block()
+			if iff, ok := hdr.Instrs[len(hdr.Instrs)-1].(*ssa.If); ok && len(hdr.Succs) == 2 {
+				_ = iff
+				out = append(out, mapLoop{f, r, loopBlocks(hdr, hdr.Succs[0])})
+			}
+		}
+	})
+	return out
+}
+
+var orderSinkRe = re(`^(iface:)?\((\*?hash\.|\*?bytes\.Buffer|\*?strings\.Builder|io\.Writer|\*?bufio\.Writer|golang\.org/x/crypto/sha3|lib/crypto\.KeccakState).*\)\.Write(String|Byte|Rune)?$|^fmt\.Fp?rint|\.AddLog$|^lib/rlp\.Encode$|\)\.EncodeRLP$|^io\.WriteString$|^encoding/binary\.Write$`)
+
+// orderSinks: instructions in the loop whose effect depends on the order of iterations: appends that accumulate
+// across iterations (not the construction of a per-iteration key), writes to hashes/buffers/streams, log records, sends.
+func (l mapLoop) orderSinks() []string {
+	var out []string
+	inLoop := func(v ssa.Value) bool {
+		in, ok := v.(ssa.Instruction)
+		return ok && in.Block() != nil && l.blocks[in.Block()]
+	}
+	for b := range l.blocks {
+		for _, in := range b.Instrs {
+			if _, ok := in.(*ssa.Send); ok {
+				out = append(out, "send")
+			}
+			cc := callCommon(in)
+			if cc == nil {
+				continue
+			}
+			n := calleeNameNoPath(cc)
+			if n == "append" && len(cc.Args) > 0 {
+				// accumulating: the result is carried to the next iteration (merged by a phi, stored into a variable,
+				// field or map); an append whose result is only passed on builds a per-iteration key
+				acc := false
+				if val, ok := in.(ssa.Value); ok && val.Referrers() != nil {
+					for _, r := range *val.Referrers() {
+						switch x := r.(type) {
+						case *ssa.Phi:
+							acc = true
+						case *ssa.MapUpdate:
+							acc = true
+						case *ssa.Store:
+							if al, isAlloc := x.Addr.(*ssa.Alloc); isAlloc && inLoop(al) {
+								continue
+							}
+							if x.Val == val {
+								acc = true
+							}
+						}
+					}
+				}
+				if acc {
+					out = append(out, "append")
+				}
+			} else if orderSinkRe.MatchString(n) {
+				out = append(out, n)
+			}
+		}
+	}
+	sort.Strings(out)
+	return out
+}
+
+// sortedAfter: a sort.* call follows the loop in the same function.
+func (l mapLoop) sortedAfter() bool {
+	found := false
+	for _, b := range l.fn.Blocks {
+		if l.blocks[b] {
+			continue
+		}
+		for _, in := range b.Instrs {
+			if cc := callCommon(in); cc != nil && strings.HasPrefix(calleeNameNoPath(cc), "sort.") {
+				// after the loop: reachable from one of the loop's blocks
+				for lb := range l.blocks {
+					if len(lb.Instrs) > 0 && reaches(lb.Instrs[0], in) {
+						found = true
+					}
+					break
+				}
+			}
+		}
+	}
+	return found
+}
+
+// c06Loops: map iterations whose accumulated output is order-dependent, with the reason the order cannot matter.
+var c06Loops = map[string]struct {
+	appends int
+	why     string
+}{
+	"(*kai/state.StateDB).Finalise|s.journal.dirties":             {1, "the only list built is the address list handed to the prefetcher (cache warming); objects are moved to sets and finalised independently"},
+	"(*kai/state.StateDB).IntermediateRoot|s.stateObjectsPending": {1, "storage roots and account updates of distinct accounts commute (the trie root is a function of content); the list built is the prefetcher's used-address list"},
+	"(*kai/state.stateObject).finalise|s.dirtyStorage":            {1, "slots move to the pending map; the list built is the prefetch list"},
+	"(*kai/state.stateObject).updateTrie|s.pendingStorage":        {1, "trie updates of distinct slots commute; the list built is the prefetcher's used-slot list"},
+	"(*kai/state/snapshot.Tree).Cap|t.layers":                     {1, "builds the parent->children index used only to drop stale layers"},
+	"(*trie/triedb/hashdb.Database).Update|nodes.Sets":            {1, "order of storage-trie node sets among themselves is irrelevant for reference counting; the account trie is appended last after the loop"},
+	"kai/state/cstate.calculateValidatorSetUpdates|make:map":      {1, "the removals appended in map order are sorted by address in processChanges before being applied (checked below)"},
+}
+
 func runC06(c *Ctx) {
+	c.Decided = []string{
+		"no map iteration reachable from block execution lets its order reach an order-sensitive sink (accumulating append without a later sort, hash/buffer/stream write, log record, channel send), except a frozen table of loops with the reason their order cannot matter",
+		"no wall-clock, random, environment or network value reachable from block execution flows anywhere but metrics, logs, tracer callbacks and GC-timing; goroutine starts on the execution path are inventoried",
+		"validator updates are order independent: the change list is copied and sorted by address before it is scanned, the resulting set is sorted by a total order, and the application's list reaches consensus only through that path",
+		"transactions are applied sequentially in block order with their index; the address blacklist fetched during commit is read only by the transaction pool",
+		"the proposer builds the header from the same state fields the validators compare against",
+	}
+	c.NotDec = []string{"equality of results across cache/snapshot/prefetcher/GC configurations and across runs (value-level)", "determinism of the staking contract's own bytecode", "absence of data races between execution and background goroutines"}
+	c.Floors["D"] = 40
+
 	skip := func(f *ssa.Function) bool {
 		p := strings.TrimPrefix(f.Pkg.Pkg.Path(), modPath+"/")
 		for _, s := range c06SkipPkgs {
@@ -84,32 +258,255 @@ func runC06(c *Ctx) {
 		c.Fn("kai/state/cstate", "", "calculateValidatorSetUpdates"),
 	}
 	reach := c.reachable(entries, skip)
-	if os.Getenv("KVET_C06_DUMP") != "" {
-		var lines []string
-		for f := range reach {
-			allInstrs(f, false, func(_ *ssa.Function, in ssa.Instruction) {
-				switch x := in.(type) {
-				case *ssa.Range:
-					if _, isMap := x.X.Type().Underlying().(*types.Map); isMap {
-						lines = append(lines, fmt.Sprintf("MAPRANGE %s %s over %s  [%s]", c.P.Pos(instrPos(in)), fnName(f), clip(pathOf(x.X), 60), chain(reach, f)))
-					}
-				case *ssa.Go:
-					lines = append(lines, fmt.Sprintf("GO %s %s %s", c.P.Pos(instrPos(in)), fnName(f), clip(describeInstr(in), 80)))
-				case *ssa.Select:
-					if len(x.States) > 1 || !x.Blocking {
-						lines = append(lines, fmt.Sprintf("SELECT %s %s states=%d blocking=%v", c.P.Pos(instrPos(in)), fnName(f), len(x.States), x.Blocking))
-					}
+	c.Check("D", "execution call tree/reachable functions", len(reach) >= 600, c.fnPos("(*mainchain/blockchain.BlockOperations).commitBlock"), len(reach), fmt.Sprintf("%d functions reachable from CommitAndValidateBlockTxs, updateState, calculateValidatorSetUpdates (goroutine bodies and %v excluded)", len(reach), c06SkipPkgs))
+	var fns []*ssa.Function
+	for f := range reach {
+		fns = append(fns, f)
+	}
+	sort.Slice(fns, func(i, j int) bool { return fnName(fns[i]) < fnName(fns[j]) })
+	// ---- map iteration order ---------------------------------------------------------------------------------
+	nLoops := 0
+	perKey := map[string]int{}
+	for _, f := range fns {
+		for _, l := range mapLoops(f) {
+			nLoops++
+			sinks := l.orderSinks()
+			ranged := pathOf(l.rng.X)
+			tk := fnName(f) + "|" + ranged
+			if strings.HasPrefix(ranged, "make:map") {
+				tk = fnName(f) + "|make:map"
+			}
+			key := fmt.Sprintf("%s/iteration over map %s does not let its order reach an order-sensitive sink", fnName(f), clip(ranged, 60))
+			perKey[key]++
+			if perKey[key] > 1 {
+				key += fmt.Sprintf(" #%d", perKey[key])
+			}
+			nApp, other := 0, []string{}
+			for _, s := range sinks {
+				if s == "append" {
+					nApp++
+				} else {
+					other = append(other, s)
 				}
-				if cc := callCommon(in); cc != nil {
-					n := calleeNameNoPath(cc)
-					if re(`^time\.(Now|Since|Until)$|^math/rand\.|^crypto/rand\.|^os\.(Getenv|Hostname|Getpid)|^net/http\.|^runtime\.(NumCPU|NumGoroutine|GOMAXPROCS)`).MatchString(n) {
-						lines = append(lines, fmt.Sprintf("SOURCE %s %s %s", c.P.Pos(instrPos(in)), fnName(f), n))
+			}
+			t, tabled := c06Loops[tk]
+			switch {
+			case len(other) > 0:
+				c.Bad("D", key, instrPos(l.rng), len(sinks), "the loop body calls "+strings.Join(other, ", ")+": its output depends on Go's randomised map order ("+chain(reach, f)+")")
+			case nApp == 0:
+				c.OK("D", key, instrPos(l.rng), 1, "body only updates maps/sets and per-key state")
+			case l.sortedAfter():
+				c.OK("D", key, instrPos(l.rng), nApp, "the collected slice is sorted after the loop")
+			case tabled && nApp <= t.appends:
+				c.OK("D", key, instrPos(l.rng), nApp, "tabled: "+t.why)
+			default:
+				c.Bad("D", key, instrPos(l.rng), nApp, fmt.Sprintf("%d slice(s) are built in map order and not sorted afterwards; reached from block execution via %s", nApp, chain(reach, f)))
+			}
+		}
+	}
+	c.Check("D", "execution call tree/map iterations inventoried", nLoops >= 30, c.fnPos("(*kai/state.StateDB).Finalise"), nLoops, "")
+	// ---- goroutines -------------------------------------------------------------------------------------------------
+	goTable := map[string]string{
+		"(*trie.hasher).hashFullNodeChildren": "16 workers each write only slot i of the two private copies and are joined by the WaitGroup before the copies are used",
+		"kai/state.newSubfetcher":             "prefetcher: warms node caches; the trie it hands back is used through CopyTrie and is content-determined",
+		"kai/state/snapshot.diffToDisk":       "background snapshot generation after a flatten; execution reads through the layer API",
+	}
+	for _, f := range fns {
+		f := f
+		allInstrs(f, false, func(_ *ssa.Function, in ssa.Instruction) {
+			if _, ok := in.(*ssa.Go); !ok {
+				return
+			}
+			why, ok := goTable[fnName(f)]
+			c.Check("D", fnName(f)+"/goroutine started on the execution path is joined or cannot influence the result", ok, instrPos(in), 1, "goroutine start "+describeInstr(in)+" reachable from block execution via "+chain(reach, f)+" "+why)
+		})
+	}
+	if fn := c.Fn("trie", "hasher", "hashFullNodeChildren"); fn != nil {
+		c.FollowedBy(fn, "start the workers", func(in ssa.Instruction) bool { _, ok := in.(*ssa.Go); return ok }, "wg.Wait()", CallTo(`^\(\*sync\.WaitGroup\)\.Wait$`, ""), "return", AnyReturn())
+	}
+	// ---- wall clock and other ambient inputs -----------------------------------------------------------------------------
+	srcRe := re(`^time\.(Now|Since|Until)$|^math/rand\.|^crypto/rand\.|^os\.(Getenv|Hostname|Getpid|Environ)$|^runtime\.(NumCPU|NumGoroutine|GOMAXPROCS)$`)
+	nSrc := 0
+	for _, f := range fns {
+		f := f
+		allInstrs(f, true, func(g *ssa.Function, in ssa.Instruction) {
+			cl, ok := in.(*ssa.Call)
+			if !ok {
+				return
+			}
+			n := calleeNameNoPath(&cl.Call)
+			if !srcRe.MatchString(n) {
+				return
+			}
+			nSrc++
+			esc := c06Escape(cl, map[ssa.Value]bool{})
+			c.Check("D", fmt.Sprintf("%s/%s at %s feeds only metrics, logs, tracer callbacks or GC timing", fnName(f), n, c.P.Pos(instrPos(in))), esc == "", instrPos(in), 1, "the value reaches "+esc+" ("+chain(reach, f)+")")
+		})
+	}
+	c.Check("D", "execution call tree/ambient inputs inventoried", nSrc >= 20, c.fnPos("(*mainchain/blockchain.BlockOperations).commitBlock"), nSrc, "")
+	// network inside commit: the blacklist
+	if g := c.P.Global("mainchain/tx_pool", "Blacklisted"); g != nil {
+		var readers []string
+		for _, f := range c.P.ModFuncs {
+			if len(f.Blocks) == 0 {
+				continue
+			}
+			f := f
+			allInstrs(f, false, func(_ *ssa.Function, in ssa.Instruction) {
+				for _, op := range in.Operands(nil) {
+					if *op == ssa.Value(g) {
+						readers = append(readers, fnName(rootFn(f)))
 					}
 				}
 			})
 		}
-		sort.Strings(lines)
-		fmt.Println(strings.Join(lines, "\n"))
-		fmt.Println("REACH", len(reach))
+		sort.Strings(readers)
+		bad := ""
+		for _, r := range readers {
+			if f := c.P.FuncByName(r); f != nil {
+				if _, in := reach[f]; in && r != "mainchain/tx_pool.UpdateBlacklist" {
+					bad = r
+				}
+			}
+		}
+		c.Check("W", "mainchain/tx_pool.Blacklisted/the list fetched over HTTP during commit is not read by block execution", bad == "" && len(readers) >= 2, c.fnPos("mainchain/tx_pool.UpdateBlacklist"), len(readers), "read by "+bad+"; all users: "+strings.Join(readers, ", "))
+	} else {
+		c.Unres("anchor", "mainchain/tx_pool.Blacklisted", "global not found")
 	}
+	if fn := c.Fn("mainchain/blockchain", "BlockOperations", "CommitAndValidateBlockTxs"); fn != nil {
+		for _, in := range findInstrs(fn, CallTo(`^mainchain/tx_pool\.UpdateBlacklist$`, "")) {
+			cl := in.(*ssa.Call)
+			esc := c06Escape(cl, map[ssa.Value]bool{})
+			c.Check("D", fnName(fn)+"/the outcome of the blacklist download does not influence the result", esc == "" || strings.HasPrefix(esc, "a branch"), instrPos(in), 1, esc)
+		}
+	}
+	c06Validators(c)
+	c06Sequential(c)
+}
+
+// c06Escape follows a value forward through arithmetic, conversions, local variables and time arithmetic; it returns
+// "" when every use ends in a metrics/log/tracer/GC-timing sink, otherwise a description of the first other use.
+func c06Escape(v ssa.Value, seen map[ssa.Value]bool) string {
+	if seen[v] {
+		return ""
+	}
+	seen[v] = true
+	refs := v.Referrers()
+	if refs == nil {
+		return ""
+	}
+	sinkRe := re(`^lib/metrics\.|^\(\*?lib/metrics\.|^iface:\(lib/metrics\.|^lib/log\.|^iface:\(lib/log\.|^\(\*?lib/log\.|AccumulateGCProc$|^iface:\(kvm\.(KVMLogger|Tracer)\)\.Capture|\)\.(UpdateSince|Update|Mark|Inc|Add)$|^\(lib/common\.PrettyDuration\)|^fmt\.Sprintf$`)
+	passRe := re(`^time\.(Since|Until)$|^\(time\.Time\)\.(Sub|Add|Round|Truncate|UnixNano|Unix)$|^\(time\.Duration\)\.`)
+	metricField := re(`^kai/state\.StateDB\.(Account|Storage|Snapshot|TrieDB)\w*(Reads|Hashes|Updates|Commits)$|^trie/triedb/hashdb\.Database\.(gc|flush)\w+$|^kai/state/snapshot\.generatorStats\.|^kai/state/snapshot\.generatorContext\.(stats|logged)$`)
+	for _, r := range *refs {
+		switch x := r.(type) {
+		case *ssa.DebugRef:
+		case *ssa.Call, *ssa.Defer, *ssa.Go:
+			cc := callCommon(x)
+			n := calleeNameNoPath(cc)
+			if cc.StaticCallee() == nil && !cc.IsInvoke() {
+				// a function value chosen among loggers (logger := log.Info / log.Debug)
+				all := true
+				cases := phiCases(cc.Value)
+				for _, pc := range cases {
+					f, isFn := pc.Val.(*ssa.Function)
+					if !isFn || !sinkRe.MatchString(short(f.String())) {
+						all = false
+					}
+				}
+				if all && len(cases) > 0 {
+					continue
+				}
+			}
+			switch {
+			case sinkRe.MatchString(n):
+			case passRe.MatchString(n):
+				if val, ok := x.(ssa.Value); ok {
+					if e := c06Escape(val, seen); e != "" {
+						return e
+					}
+				}
+			default:
+				// a closure called or deferred right here (the `defer func(start time.Time){…}(time.Now())` idiom):
+				// follow the value into the matching parameter
+				callee := cc.StaticCallee()
+				if callee != nil && callee.Parent() != nil && len(callee.Blocks) > 0 {
+					followed := false
+					for i, a := range cc.Args {
+						if a == v && i < len(callee.Params) {
+							followed = true
+							if e := c06Escape(callee.Params[i], seen); e != "" {
+								return e
+							}
+						}
+					}
+					if followed {
+						continue
+					}
+				}
+				return "call " + n
+			}
+		case *ssa.BinOp:
+			switch x.Op.String() {
+			case "+", "-", "*", "/":
+				if e := c06Escape(x, seen); e != "" {
+					return e
+				}
+			default:
+				// comparison: where does the verdict go?
+				if e := c06Escape(x, seen); e != "" {
+					return e
+				}
+			}
+		case *ssa.Convert, *ssa.ChangeType, *ssa.MakeInterface, *ssa.Phi, *ssa.UnOp, *ssa.Extract:
+			if e := c06Escape(x.(ssa.Value), seen); e != "" {
+				return e
+			}
+		case *ssa.Store:
+			switch a := x.Addr.(type) {
+			case *ssa.Alloc:
+				if e := c06Escape(a, seen); e != "" {
+					return e
+				}
+			case *ssa.FieldAddr:
+				ref := fieldRef{namedOf(a.X.Type()), fieldName(a.X.Type(), a.Field)}
+				if !metricField.MatchString(ref.String()) {
+					return "field " + ref.String()
+				}
+			case *ssa.IndexAddr:
+				// element of a variadic argument list: follow the slice to its call
+				if e := c06Escape(a.X, seen); e != "" {
+					return e
+				}
+			default:
+				return "a store to " + pathOf(x.Addr)
+			}
+		case *ssa.Slice:
+			if e := c06Escape(x, seen); e != "" {
+				return e
+			}
+		case *ssa.IndexAddr, *ssa.FieldAddr:
+			// address computations on the variadic argument array; the stores are followed from the stored value
+		case *ssa.MakeClosure:
+			// captured by a deferred metrics closure: follow the free variable inside
+			if fn, ok := x.Fn.(*ssa.Function); ok {
+				for i, b := range x.Bindings {
+					if b == v && i < len(fn.FreeVars) {
+						if e := c06Escape(fn.FreeVars[i], seen); e != "" {
+							return e
+						}
+					}
+				}
+			}
+		case *ssa.If:
+			return "a branch condition at " + fmt.Sprint(x.Pos())
+		case *ssa.Return:
+			return "a return value of " + fnName(x.Parent())
+		case *ssa.MapUpdate, *ssa.Send:
+			return "a map/channel"
+		default:
+			return fmt.Sprintf("%T", r)
+		}
+	}
+	return ""
 }
